@@ -1807,9 +1807,9 @@ pub fn check(check: &mut Check) {
   let ctx = check.ctx.clone();
   let focus = Focus::of(&ctx.property);
   let n = match focus {
-    Focus::C11 => ctx.tier.pick(4_000u64, 300_000u64),
-    Focus::C15 => ctx.tier.pick(1_500u64, 300_000u64),
-    _ => ctx.tier.pick(2_500u64, 300_000u64),
+    Focus::C11 => ctx.tier.pick(6_000u64, 300_000u64),
+    Focus::C15 => ctx.tier.pick(3_000u64, 300_000u64),
+    _ => ctx.tier.pick(3_500u64, 300_000u64),
   };
   let n = std::env::var("VERIF_PAIR_CASES").ok().and_then(|s| s.parse().ok()).unwrap_or(n); // development aid
   // Shrinking budget: a failing pair costs a few pause timeouts per execution and proptest may try
